@@ -557,7 +557,7 @@ def run(tier, seed):
             w = os.path.join(wd, "lv_" + u[0])
             os.makedirs(w, exist_ok=True)
             lvs[i] = run_level(res, w, u[0], u[1], u[2], u[3], bugs=MODEL_MUTANTS if u[0] == "three" else (),
-                               workers=4 if tier == "quick" else 5)
+                               workers=4 if tier == "quick" else (3 if u[0] == "one" else 6), timeout=3600)
         except Exception as e:
             excs.append(e)
     lines, listsets = eight_mod_lines(tier, rng)
